@@ -297,7 +297,7 @@ pub fn run(ctx: &Ctx) -> Report {
         }
         rep.exhaustive(&format!("{}/{}: every cut after a backend word, for {} item kinds ending {} distinct distances before a word boundary", e.name(), kind.name(), focus.len(), ds.len()));
         // ---- (2) random streams of items, every cut ----
-        for _ in 0..ctx.pick(2, 150, 5000) {
+        for _ in 0..ctx.pick(2, 800, 6000) {
             let mut bits: Bits = vec![];
             let mut items: Vec<ROp> = vec![];
             for _ in 0..(1 + rng.below(14)) {
